@@ -269,6 +269,18 @@ struct World
                 c.fail( "pull-back:true-without-disarm", "reschedule_on_pending_data() returned true although the radio did not disarm the event; " + c.obs );
             else if ( !r && ( back != 0 || after.index != before.index || after.time != before.time ) )
                 c.fail( "pull-back:refused-but-state-changed", c.obs );
+            // the configuration listens on pending transmit data, at least one event is skipped, nothing happened since the event
+            // was planned and the radio leaves room for an earlier event: the radio has to be asked and the event has to move
+            // ( to any earlier event )
+            {
+                const std::uint32_t now_events = std::uint32_t( ( T + interval_us - 1 ) / interval_us );
+                const bool possible = k != 0 && ( D::mask( ref.cfg ) & PEND ) && ref.passed == 0 && !ref.pulled && ref.since >= 2 && std::max< std::uint32_t >( 1, now_events ) < ref.since;
+                if ( c.fails.empty() && possible && !disarmed )
+                    c.fail( "pull-back:radio-not-asked-although-event-is-skipped", mc::fmt( "%s: next event %u intervals after the anchor, now %lld us; %s", cfgkind().c_str(), ref.since, (long long)T, c.obs.c_str() ) );
+                else if ( c.fails.empty() && possible && back == 0 )
+                    c.fail( "pull-back:event-not-moved-although-possible", mc::fmt( "%s: next event %u intervals after the anchor, now %lld us; %s", cfgkind().c_str(), ref.since, (long long)T, c.obs.c_str() ) );
+                if ( possible ) c.cls( mc::fmt( "reschedule:possible:planned-%s-ahead", ref.since == 2 ? "2" : ref.since == 3 ? "3" : "4+" ) );
+            }
             if ( !c.fails.empty() ) return true;
             if ( !r )
             {
